@@ -4,9 +4,10 @@
 //!   item = {"expr": "<expression source>", "ctx": {name: TV}, "prelude": "<template text put before the rendered form>"}   or   {"src": "<template source>", "ctx": {name: TV}}
 //!   TV (typed value, built exactly the way the parser builds the constant of the same literal):
 //!     {"t":"int","v":"<decimal>"} | {"t":"float","bits":"<u64>"} | {"t":"str","v":s} | {"t":"bool","v":b} | {"t":"none"}
-//!     | {"t":"list","v":[TV..]} | {"t":"tuple","v":[TV..]} | {"t":"map","v":[[TV,TV]..]}
+//!     | {"t":"list","v":[TV..]} | {"t":"tuple","v":[TV..]} | {"t":"map","v":[[TV,TV]..]}  (maps are built by the VM's BuildMap)
 //! Response: {"items": [res..]}
 //!   expr item: {"load": "ok"|{"err":k}, "ops": [op names of `{{ E }}`], "const": SV (when the stream is LoadConst, Emit),
+//!               "ast_json": the parser's AST as JSON text (when the item says "ast": true),
 //!               "render": {"ok": text of `{{ E }}\x01{{ [E] }}`} | {"err": k}, "eval": {"ok": SV} | {"err": k}}
 //!   template item: {"load": .., "ops": [..], "render": ..}
 //!   SV = structural description of a value (kind, exact number, items) - never a decimal float.
@@ -47,12 +48,27 @@ fn build(tv: &J) -> Value {
         "tuple" => Value::from(Tuple::from(
             tv["v"].as_array().map(|a| a.iter().map(build).collect::<Vec<Value>>()).unwrap_or_default(),
         )),
-        "map" => Value::from_pairs(
-            tv["v"]
+        "map" => {
+            // Built by the engine's own run-time constructor (BuildMap inserts pair by pair).
+            // Value::from_pairs / collect() would go through BTreeMap::from_iter, which drops
+            // adjacent keys that are `==` (true and 1, false and 0.0) although they are distinct
+            // keys for insert(): the Eq/Ord inconsistency recorded under C07.
+            let pairs: Vec<(Value, Value)> = tv["v"]
                 .as_array()
-                .map(|a| a.iter().map(|kv| (build(&kv[0]), build(&kv[1]))).collect::<Vec<(Value, Value)>>())
-                .unwrap_or_default(),
-        ),
+                .map(|a| a.iter().map(|kv| (build(&kv[0]), build(&kv[1]))).collect())
+                .unwrap_or_default();
+            let mut ctx: BTreeMap<String, Value> = BTreeMap::new();
+            let mut src = String::from("{");
+            for (i, (k, v)) in pairs.into_iter().enumerate() {
+                ctx.insert(format!("k{}", i), k);
+                ctx.insert(format!("v{}", i), v);
+                src.push_str(&format!("k{}: v{}, ", i, i));
+            }
+            src.push('}');
+            let env = Environment::new();
+            let expr = env.compile_expression(&src).expect("map constructor");
+            expr.eval(Value::from(ctx)).expect("map constructor")
+        }
         _ => Value::UNDEFINED,
     }
 }
@@ -197,6 +213,14 @@ fn run_item(ub: UndefinedBehavior, item: &J) -> J {
             },
         };
         out.insert("eval".into(), ev);
+        if item.get("ast").and_then(|x| x.as_bool()).unwrap_or(false) {
+            // the parser's own AST of the expression, as JSON text (u128 constants survive as digits)
+            let a = match minijinja::machinery::parse_expr(e) {
+                Ok(ast) => serde_json::to_string(&ast).unwrap_or_else(|_| "null".to_string()),
+                Err(_) => "null".to_string(),
+            };
+            out.insert("ast_json".into(), J::String(a));
+        }
     } else if let Some(src) = item.get("src").and_then(|x| x.as_str()) {
         load_and_run(&mut env, src, None, &ctx, &mut out);
     }
